@@ -135,8 +135,10 @@ type RateSpec struct {
 	SQLSlow      float64 `json:"sql_slow"`
 	ZKReset      float64 `json:"zk_reset"`
 	ZKResetAfter float64 `json:"zk_reset_after"`
-	ZKSlow       float64 `json:"zk_slow"`
-	OnlyMutating bool    `json:"only_mutating,omitempty"`
+	// connection reset right after a delete request was applied (its reply is lost)
+	ZKResetAfterDelete float64 `json:"zk_reset_after_delete,omitempty"`
+	ZKSlow             float64 `json:"zk_slow"`
+	OnlyMutating       bool    `json:"only_mutating,omitempty"`
 }
 
 type TLEvent struct {
